@@ -179,12 +179,15 @@ structure ClosedH (P : BSt → Prop) : Prop where
   dropCtx : ∀ s i, P s → (s.th i).valid = false → (Backend.ctxEmpty s i).2 = true →
     (s.cfg.cleanupKeepsUnreported = true → (s.th i).fail = 0) → P (dropCtx (Backend.ctxEmpty s i).1 i)
 
-/-- what a state predicate must be closed under for the skeleton to carry it through every schedule -/
-structure Closed (P : BSt → Prop) : Prop extends ClosedH P where
+/-- closure under the steps of the read pass (`_read_and_decode_frontend_queue`) -/
+structure ClosedQ (P : BSt → Prop) : Prop where
   prepRead : ∀ s i, P s → P (s.setTh i (fun t => { t with q := (qPrepareRead s.cfg (s.th i).q).1 }))
   commitRead : ∀ s i, P s → P (s.setTh i (fun t => { t with q := qCommitRead s.cfg t.q }))
   readOne : ∀ s i st rest, P s → (s.th i).qStmts = st :: rest → (qPrepareRead s.cfg (s.th i).q).2 = true →
     P (readOne s i st rest)
+
+/-- what a state predicate must be closed under for the skeleton to carry it through every schedule -/
+structure Closed (P : BSt → Prop) : Prop extends ClosedH P, ClosedQ P where
   pop : ∀ s i st rest, P s → (s.th i).buf = st :: rest → P (popStep s i st rest)
   failReset : ∀ s i, P s → 0 < (s.th i).fail → P (failReset s i)
   front : ∀ s f, P s → P (applyFront s f).1
@@ -332,7 +335,7 @@ theorem readQueue_succ (inj : BSt → Nat → BSt) (tsNow : Option Nat) (i fuel 
   rw [readQueue]
   rfl
 
-theorem readQueue_closed (hc : Closed P) (inj : BSt → Nat → BSt) (hinj : ∀ s site, P s → P (inj s site))
+theorem readQueue_closed (hc : ClosedQ P) (inj : BSt → Nat → BSt) (hinj : ∀ s site, P s → P (inj s site))
     (tsNow : Option Nat) (i : Nat) : ∀ (fuel total : Nat) (s : BSt), P s → P (readQueue inj tsNow i fuel total s)
   | 0, _, s, h => by unfold readQueue; exact h
   | fuel + 1, total, s, h => by
@@ -358,14 +361,15 @@ theorem readQueue_closed (hc : Closed P) (inj : BSt → Nat → BSt) (hinj : ∀
           · exact hc.commitRead _ i h4
     · rw [if_pos (by simpa using hr)]; exact hfin _ h1
 
-theorem populate_closed (hc : Closed P) (inj : BSt → Nat → BSt) (hinj : ∀ s site, P s → P (inj s site))
+theorem populate_closed' (hr : ∀ s, P s → P (refreshCache s)) (hc : ClosedQ P) (inj : BSt → Nat → BSt)
+    (hinj : ∀ s site, P s → P (inj s site))
     (s : BSt) (h : P s) : P (populate inj s).1 := by
   unfold populate
   dsimp only
   have ha : P (if s.cfg.refreshAfterSample = true then s else refreshCache s) := by
     split
     · exact h
-    · exact hc.refresh s h
+    · exact hr s h
   generalize (if s.cfg.refreshAfterSample = true then s else refreshCache s) = sa at ha ⊢
   have hb : P (if sa.cfg.grace = 0 then sa else inj sa 7) := by
     split
@@ -375,12 +379,15 @@ theorem populate_closed (hc : Closed P) (inj : BSt → Nat → BSt) (hinj : ∀ 
   have h1 := hinj sb 1 hb
   have h2 : P (if sb.cfg.refreshAfterSample = true then refreshCache (inj sb 1) else inj sb 1) := by
     split
-    · exact hc.refresh _ h1
+    · exact hr _ h1
     · exact h1
   generalize (if sb.cfg.refreshAfterSample = true then refreshCache (inj sb 1) else inj sb 1) = s2 at h2 ⊢
   refine foldl_inv (fun a : BSt × Nat => P a.1) _ ?_ _ _ h2
   intro a i hA
   exact readQueue_closed hc inj hinj _ i _ _ _ (hinj _ 2 hA)
+
+theorem populate_closed (hc : Closed P) (inj : BSt → Nat → BSt) (hinj : ∀ s site, P s → P (inj s site))
+    (s : BSt) (h : P s) : P (populate inj s).1 := populate_closed' hc.refresh hc.toClosedQ inj hinj s h
 
 theorem processLowest_eq (inj : BSt → Nat → BSt) (s : BSt) :
     processLowest inj s =
